@@ -27,7 +27,8 @@ def main():
     cap = 3 if quick else 12
     work = tempfile.mkdtemp(prefix="c08-", dir=C.ensure_dir(os.path.join(C.CACHE, "tmp")))
     rep.rule("every applicable single rule-breaking edit and boundary-valid edit (capped at %d positions per (rule, "
-             "position class) and schema) of the covering corpus and seeded random schemas, plus the unedited schemas; "
+             "position class) and schema) of the covering corpus and seeded random schemas, plus the unedited schemas, plus a "
+             "sweep of every C++ keyword / alternative token and reserved-identifier form over eight entity positions; "
              "an evaluation is one sbeppc run compared with the verdict the edit class implies. distinct_nontrivial = "
              "distinct (rule, position class, expected verdict) combinations exercised." % cap)
     try:
@@ -35,7 +36,8 @@ def main():
         for sc in schemas:
             rng = C.rng_for(rep.seed, "c08", sc.name)
             jobs.append((sc, None, sc.to_xml()))
-            for ed in M.single_edits(sc, rng, per_rule_cap=cap):
+            sweep = M.keyword_sweep(sc) if (sc.name == "prims_le" or (not quick and not sc.name.startswith("rnd"))) else []
+            for ed in M.single_edits(sc, rng, per_rule_cap=cap) + sweep:
                 try:
                     _, xml = M.edited_xml(sc, ed)
                 except Exception as ex:  # an edit that cannot be applied to this schema
